@@ -46,9 +46,19 @@ type c03Query struct {
 // c03Extended is set in thorough runs (workers read it from the job): a larger alphabet.
 var c03Extended bool
 
+// c03AndNot selects the small second alphabet (leaves, AND with one positive and negated operands, OR with a negated
+// operand, an operand-less AND): it is searched to its own fixpoint so that the base alphabet's state space stays small.
+var c03AndNot bool
+
 func c03Alphabet() []c03Query {
 	a, b, c := model.Eq("a", "1"), model.Eq("b", "1"), model.Eq("c", "1")
 	q := func(e *model.Expr) c03Query { return c03Query{Expr: e} }
+	if c03AndNot {
+		return []c03Query{q(a), q(b), q(c), q(model.Not(a)), q(model.And(a, b)),
+			q(model.And(a, model.Not(b))), q(model.And(c, model.Not(a), model.Not(b))), q(model.Or(b, model.Not(c))),
+			q(model.And(a, b, model.And())), // an operand-less AND nested in an AND (compared with a fresh uncached index)
+			{Expr: model.And(a, model.Not(c)), GroupBy: []string{"b"}}}
+	}
 	base := c03Base()
 	if !c03Extended {
 		return base
@@ -71,7 +81,6 @@ func c03Base() []c03Query {
 		q(model.And(model.Or(a, c), model.Or(b, c))), q(model.And(model.Not(a), model.Not(b))),
 		q(model.Or(model.And(a, b), c)), q(model.And(a, model.Or(b, c))), q(model.Or(a)), q(model.Or(a, b)),
 		{Expr: model.Or(a, c), GroupBy: []string{"b", "c"}},
-		q(model.And(a, b, model.And())), // an operand-less AND nested in an AND (compared with a fresh uncached index)
 	}
 }
 
@@ -251,6 +260,7 @@ type c03Case struct {
 	History  []int         `json:"history,omitempty"` // indexes into the alphabet
 	Pair     []*model.Expr `json:"pair,omitempty"`
 	Extended bool          `json:"extended,omitempty"`
+	AndNot   bool          `json:"andnot,omitempty"`
 	Prefix   bool          `json:"prefix,omitempty"`
 	Big      int           `json:"big,omitempty"`
 	Edit     []int         `json:"edit,omitempty"`
@@ -327,13 +337,14 @@ type c03Args struct {
 	Depth    int    `json:"depth"`
 	Arity    int    `json:"arity"`
 	Extended bool   `json:"extended"`
+	AndNot   bool   `json:"andnot"`
 }
 
 func c03Worker(ctx *rt.Ctx, job *rt.Job) []*rt.Violation {
 	flk.Sequential(true) // single goroutine: a lock of updog or bbolt that cannot be taken now never will be (reported as a hang)
 	var a c03Args
 	job.Decode(&a)
-	c03Extended = a.Extended
+	c03Extended, c03AndNot = a.Extended, a.AndNot
 	w := newC03World(ctx, a.Cfg)
 	defer w.close()
 	if a.Mode == "pairs" {
@@ -361,7 +372,7 @@ func c03Worker(ctx *rt.Ctx, job *rt.Job) []*rt.Violation {
 				ctx.Cov.Add("transitions", 1)
 				ctx.Cov.Add("traces_validated_against_impl", 1)
 				if viol != "" {
-					c := c03Case{Cfg: a.Cfg, History: hist, Extended: a.Extended}
+					c := c03Case{Cfg: a.Cfg, History: hist, Extended: a.Extended, AndNot: a.AndNot}
 					return []*rt.Violation{rt.NewViolation("C03", "history", c.sig(), c, "%s", viol)}
 				}
 				if !bind {
@@ -574,6 +585,10 @@ func c03Run(ctx *rt.Ctx) []*rt.Violation {
 	var jobs []rt.Job
 	for _, pre := range []bool{false, true} {
 		for _, c := range []string{"ample", "lru3", "lru1", "lru0", "none"} {
+			{
+				b, _ := json.Marshal(c03Args{Cfg: c03Cfg{Preload: pre, Cache: c}, Mode: "bfs", AndNot: true})
+				jobs = append(jobs, rt.Job{Name: "bfs-andnot-" + c, Args: b})
+			}
 			a := c03Args{Cfg: c03Cfg{Preload: pre, Cache: c}, Mode: "bfs"}
 			if ctx.Thorough() {
 				// base alphabet to fixpoint (as in quick) and the extended alphabet: to fixpoint for the small caches,
@@ -631,7 +646,7 @@ func c03Replay(ctx *rt.Ctx, v *rt.Violation) *rt.Violation {
 	if err := json.Unmarshal(v.Case, &c); err != nil {
 		rt.Harnessf("case: %v", err)
 	}
-	c03Extended = c.Extended
+	c03Extended, c03AndNot = c.Extended, c.AndNot
 	w := newC03World(ctx, c.Cfg)
 	defer w.close()
 	if c.Pair != nil {
@@ -646,7 +661,7 @@ func c03Replay(ctx *rt.Ctx, v *rt.Violation) *rt.Violation {
 	}
 	for n := 1; n <= len(c.History); n++ {
 		if viol, _ := w.play(c.History[:n], true); viol != "" {
-			cc := c03Case{Cfg: c.Cfg, History: c.History[:n], Extended: c.Extended}
+			cc := c03Case{Cfg: c.Cfg, History: c.History[:n], Extended: c.Extended, AndNot: c.AndNot}
 			return rt.NewViolation("C03", "history", cc.sig(), cc, "%s", viol)
 		}
 	}
